@@ -67,6 +67,21 @@ func checkC13(r *Run) {
 			add(mk, i%3 == 0)
 		}
 	}
+	// a struct package called `types`, resolved through the alias form of the README
+	for _, mk := range []func() *descgen.Entry{descgen.K5, descgen.K3} {
+		add(mk, true)
+		b := cases[len(cases)-1]
+		b.DottedPath, b.HyphenPath, b.DigitPath, b.SameName, b.ForeignGoPackage, b.FullPathOverride, b.MixedCasePkg = false, false, false, false, false, false, false
+		cases[len(cases)-2].MixedCasePkg = false
+		b.TypesNamedPkg = true
+		b.Name += "t"
+		b.Tags = append(b.Tags, "struct-package-named-types")
+		pairs[len(pairs)-1].B = b.Name
+		pairs[len(pairs)-1].Label = "separate-package/override=true/package-named-types"
+		if !r.thorough() {
+			break
+		}
+	}
 	// the isolated shapes (map<string,bytes>, lists and maps of empty messages, by-value duration branches ...)
 	for i, e := range descgen.Exotic() {
 		if r.thorough() || i%2 == 0 {
